@@ -38,6 +38,9 @@ type PartSpec struct {
 	Park    int    `json:"park,omitempty"`    // > 0: a reader consumes that many events and is parked before the run
 	ParkRng bool   `json:"parkrng,omitempty"` // the parked reader's query has a RANGE (covering everything): it reads through partition.JIterator and the chunk selector instead of the journal iterator
 	Fail    bool   `json:"fail,omitempty"`    // the journal controller cannot open this partition while the statements run (injected fault): the visitor skips it
+	// QFail (with Hold 1): while the partition is held, a SELECT over it fails because its journal cannot be opened (GetJournals stops its
+	// do-not-release visit there and gives back what it took): the holder's hold must still be there when TRUNCATE comes
+	QFail bool `json:"qfail,omitempty"`
 }
 
 // selected by the statement: the source condition holds, the source is one the server can compile, the journal can be opened
@@ -461,6 +464,21 @@ func (r *runner) runBuilt(rp *Replay, vc int) (*outcome, error) {
 				r.jdec.setFail(src, true)
 			}
 		}
+		for i, ps := range parts {
+			if ps.QFail && ps.Hold == 1 && !ps.Fail {
+				src := o.before[i].Src
+				r.jdec.setFail(src, true)
+				r.query(&api.QueryRequest{Query: fmt.Sprintf("SELECT FROM vcase=%d AND p=%d", vc, i), Limit: 1}) // fails: the journal cannot be opened
+				r.jdec.setFail(src, false)
+				// the holder is still the only one holding the partition: exactly then the tag index grants (and takes back) the exclusive lock
+				if r.srv.TIndex.LockExclusively(src) {
+					r.srv.TIndex.UnlockExclusively(src)
+				} else {
+					o.extra = append(o.extra, Violation{Class: "hold-released-by-another-user", Detail: fmt.Sprintf("%s: before the statement a SELECT over the held partition %d failed (its journal could not be opened); afterwards the tag index does not count exactly the holder's hold on it any more: the next TRUNCATE may drop a partition that is in use", stmtOf(vc, o.p, false), i)})
+					r.srv.TIndex.GetJournalTags(src, true) // take the hold again, so that the case can go on
+				}
+			}
+		}
 		return nil
 	}
 	release := func() {
@@ -473,7 +491,15 @@ func (r *runner) runBuilt(rp *Replay, vc int) (*outcome, error) {
 				r.srv.TIndex.UnlockExclusively(src)
 			}
 			if ps.Hold >= 1 {
-				r.srv.TIndex.Release(src)
+				func() {
+					defer func() {
+						if p := recover(); p != nil {
+							// the tag index says the partition is not held: somebody else gave the holder's hold back
+							o.extra = append(o.extra, Violation{Class: "hold-released-by-another-user", Detail: fmt.Sprintf("%s: the holder of partition %d releases its hold and the tag index panics: %v", o.stmt, i, p)})
+						}
+					}()
+					r.srv.TIndex.Release(src)
+				}()
 			}
 		}
 	}
@@ -810,6 +836,9 @@ func mkCases(r *runner, j job) ([]Case, error) {
 		}
 		if rp.Parts[i].Fail {
 			tags = append(tags, "journal-open-fails")
+		}
+		if rp.Parts[i].QFail && rp.Parts[i].Hold == 1 {
+			tags = append(tags, "failed-select-over-held-partition")
 		}
 		if !o.afterReal[i].Exists {
 			tags = append(tags, "partition-dropped")
